@@ -37,7 +37,7 @@ def monitor(ctx: Ctx, case: dict, sc: dict, an: dict) -> None:
     rejected_ws_waiting = any(x["kind"] == "ws" and any(a[1] is not None and a[1] >= 400 for a in x["access"]) and x["app"] is not None
                               and (x["disc_at"] is None or x["t_exit"] is None or x["t_exit"] >= x["disc_at"]) and not any(s[1] == "websocket.accept" for s in x["sends"])
                               for x in an["instances"].values())
-    sig0 = {"proto": sc["proto"], "blocked_put": ("disconnect" if "disconnect" in blocked else (blocked[0] if blocked else None)),
+    sig0 = {"proto": sc["proto"], "blocked_put": ("disconnect" if "disconnect" in blocked else ("data" if blocked else None)),
             "rejected_ws_app_waiting": rejected_ws_waiting}
     # (1) never armed while busy: positive-length overlap of a timer wait with a request in progress
     for a, b in an["waits"]:
